@@ -999,7 +999,11 @@ fn requests(af: &AFont, rng: &mut Rng, count: usize) -> Vec<Req> {
         }
         f
     };
-    let mut push = |v: &mut Vec<Req>, label: &'static str, gids: Vec<u32>, unis: Vec<u32>, flags: u16| {
+    let mut push = |v: &mut Vec<Req>, label: &'static str, mut gids: Vec<u32>, mut unis: Vec<u32>, flags: u16| {
+        gids.sort();
+        gids.dedup();
+        unis.sort();
+        unis.dedup();
         v.push(Req { gids, unis, flags, label });
     };
     // boundary requests, each under plain / retain-gids
@@ -1241,7 +1245,7 @@ fn main() {
         let Ok(font) = FontRef::new(bytes) else { return };
         let af = abstract_font(&font);
         let reqs = requests(&af, rng, nreq);
-        let model_font_ok = af.n <= 1500 && af.cmap.len() <= 4000;
+        let model_font_ok = af.n <= 1500 && af.cmap.len() <= 4000 && af.cmap.windows(2).all(|w| w[0].0 < w[1].0);
         if !model_font_ok {
             st.count("model.skipped_font_too_large");
         }
